@@ -7,14 +7,15 @@ use chrono::{NaiveDate, Weekday};
 use opening_hours_syntax::rules::day::{self as ds, Date, Month};
 
 use crate::localization::Localize;
-use crate::opening_hours::{DATE_END, DATE_START};
+use crate::opening_hours::DATE_END;
 use crate::utils::dates::{count_days_in_month, easter};
 use crate::utils::range::WrappingRange;
 use crate::Context;
 
 /// Get the first valid date before given "yyyy/mm/dd", for example if 2021/02/30 is given, this
-/// will return february 28th as 2021 is not a leap year.
-fn valid_ymd_before(year: i32, month: u32, day: u32) -> NaiveDate {
+/// will return february 28th as 2021 is not a leap year. There is no such date if the year is
+/// out of the range of representable dates.
+fn valid_ymd_before(year: i32, month: u32, day: u32) -> Option<NaiveDate> {
     debug_assert!((1..=31).contains(&day));
 
     NaiveDate::from_ymd_opt(year, month, day)
@@ -25,12 +26,12 @@ fn valid_ymd_before(year: i32, month: u32, day: u32) -> NaiveDate {
                 .filter_map(|day| NaiveDate::from_ymd_opt(year, month, day)),
         )
         .next()
-        .unwrap_or(DATE_END.date())
 }
 
 /// Get the first valid date after given "yyyy/mm/dd", for example if 2021/02/30 is given, this
-/// will return march 1st of 2021.
-fn valid_ymd_after(year: i32, month: u32, day: u32) -> NaiveDate {
+/// will return march 1st of 2021. There is no such date if the year is out of the range of
+/// representable dates.
+fn valid_ymd_after(year: i32, month: u32, day: u32) -> Option<NaiveDate> {
     debug_assert!((1..=31).contains(&day));
 
     NaiveDate::from_ymd_opt(year, month, day)
@@ -41,7 +42,6 @@ fn valid_ymd_after(year: i32, month: u32, day: u32) -> NaiveDate {
                 .filter_map(|day| NaiveDate::from_ymd_opt(year, month, day)?.succ_opt()),
         )
         .next()
-        .unwrap_or(DATE_END.date())
 }
 
 /// Find next change from iterators of "starting of an interval" to "end of an
@@ -85,12 +85,8 @@ fn intervals_from_bounds(
         }
 
         let range = match (bounds_start.peek().copied(), bounds_end.peek().copied()) {
-            // The date is after the end of the last interval
-            (None, None) => return None,
-            (None, Some(end)) => {
-                bounds_end.next();
-                DATE_START.date()..=end
-            }
+            // No interval starts any more: an end without a start before it closes nothing
+            (None, _) => return None,
             (Some(start), None) => {
                 bounds_start.next();
                 start..=DATE_END.date()
@@ -264,19 +260,19 @@ impl DateFilter for ds::YearRange {
     }
 }
 
-/// Project date on a given year.
+/// Project date on a given year, if this year can be represented.
 fn date_on_year(
     date: ds::Date,
     for_year: i32,
-    date_builder: impl FnOnce(i32, u32, u32) -> NaiveDate,
+    date_builder: impl FnOnce(i32, u32, u32) -> Option<NaiveDate>,
 ) -> Option<NaiveDate> {
     match date {
         ds::Date::Easter { year } => easter(year.map(Into::into).unwrap_or(for_year)),
         ds::Date::Fixed { year: None, month, day } => {
-            Some(date_builder(for_year, month.into(), day.into()))
+            date_builder(for_year, month.into(), day.into())
         }
         ds::Date::Fixed { year: Some(year), month, day } if i32::from(year) == for_year => {
-            Some(date_builder(year.into(), month.into(), day.into()))
+            date_builder(year.into(), month.into(), day.into())
         }
         _ => None,
     }
